@@ -4,7 +4,7 @@ CLAIM = ('executable_path() and prefix_path() (Linux branch) executed against a 
          'with the real std::string inline code: returned path == P, prefix == grandparent directory + separator, no access outside the internal buffer; one obligation per concrete |P| in 0..12, 16, 17, 24, 31 '
          '(thorough up to 48) with EVERY byte of P symbolic (any non-NUL byte: spaces, backslashes, non-ASCII), readlink failure included; endianness() against the memory model of the x86-64 target')
 BOUNDS = {'quick': '|P| in {0..12, 16, 17, 24, 31}, all bytes symbolic (non-NUL; absolute path for prefix_path); std::string buffers are constant-size blocks of 2|P|+40 bytes (a larger request fails an assertion)', 'thorough': 'additionally |P| in {13, 14, 15, 20, 40, 48}'}
-NOT_COVERED = ['symlinks, /proc not mounted, non-Linux branches: behaviour of the environment, not of xtl', 'paths longer than PATH_MAX; big-endian targets (cbmc models the x86-64 target of the build)',
+NOT_COVERED = ['prefix_path() for paths longer than 48 bytes (out of memory at |P| = 255); executable_path() beyond 257 bytes only in the thorough tier and only with a fixed path pattern', 'symlinks, /proc not mounted, non-Linux branches: behaviour of the environment, not of xtl', 'paths longer than PATH_MAX; big-endian targets (cbmc models the x86-64 target of the build)',
                'paths longer than 48 bytes, in particular lengths around the 1024-byte internal buffer: copying ~1000 symbolic bytes through std::string gave no verdict within 400 s on any back end (measured for |P| = 255, 1023, 1024), so the behaviour at and beyond the buffer size (readlink fills the buffer without a terminator; the path is truncated) is NOT decided by this check']
 ASSUMPTIONS = ['readlink obeys its man page contract and nothing more (stub in the harness)', 'std::string::_M_replace/_M_replace_aux/_M_create/_M_mutate/rfind are modelled in rt/libstdcxx_models.c on the real object layout']
 INERT = []
@@ -45,7 +45,7 @@ def obligations(tier):
     # long paths: the content is a fixed pattern (separators, spaces, non-ASCII bytes) except the last TAILSYM bytes, which are symbolic; lengths around the 256-byte mark (quick) and
     # around 512 / 1023 (thorough)
     for L in LONG.get(tier, LONG['quick']):
-        for h in ('h_exe', 'h_prefix'):
+        for h in ('h_exe',):        # prefix_path at these lengths ran out of memory (12 GB) in propositional reduction: not covered
             big = L > 300
             add('%s/long%04d' % (h[2:], L), 'sysN1100' if big else 'sysN320', h, L, ['TAILSYM=6'], '|P|=%d, fixed pattern with the last 6 bytes symbolic; internal buffer scaled to %d bytes' % (L, 1100 if big else 320), 'cadical', memset=1110 if big else 330)
     # the boundary of the internal buffer, decided on the scaled configuration (buffer of SCALED_N bytes, i.e. PATH_MAX scaled to SCALED_N - 1): lengths below, at and above it; beyond
